@@ -49,7 +49,7 @@ def kernels():
     ks = []
     unf = ("cbv [from_point_and_normal from_points from_points_and_vector plane_normal_from_points plane_equation_from_points "
            "tri_cross vnormalize vnorm vnorm2 vdivs vdot vcross vsub vlist vx vy vz pref pnormal ea eb ec ed app]; rops")
-    solve = "list_eq ltac:(first [reflexivity | ring | (f_equal; [ring | f_equal; ring]) | (f_equal; f_equal; ring) | (f_equal; ring)])"
+    solve = "list_eq ltac:(first [reflexivity | ring | (f_equal; [ring | f_equal; ring]) | (f_equal; f_equal; ring) | (f_equal; ring) | ring_sqrt])"
 
     def plane_out(pl):
         return (pl.reference_point, pl.normal)
